@@ -13,6 +13,8 @@
 package refstr
 
 import (
+	"math"
+	"math/big"
 	"strconv"
 	"strings"
 )
@@ -253,16 +255,172 @@ func ParseHexFloat(t string, upper bool) (val float64, neg bool, expDigits strin
 	return
 }
 
-// FloatSimple is the C output of the float conversions with default precision
-// for a few exactly representable values; written out by hand from the rules
-// of %e (one digit before the point, six after, exponent of at least two
-// digits), %f (six digits after the point) and %g (six significant digits,
-// trailing zeros removed, %e style iff the exponent is < -4 or >= 6).
-var FloatSimple = map[float64]map[byte]string{
-	1.5:   {'e': "1.500000e+00", 'E': "1.500000E+00", 'f': "1.500000", 'F': "1.500000", 'g': "1.5", 'G': "1.5"},
-	0.0:   {'e': "0.000000e+00", 'E': "0.000000E+00", 'f': "0.000000", 'F': "0.000000", 'g': "0", 'G': "0"},
-	-2.25: {'e': "-2.250000e+00", 'E': "-2.250000E+00", 'f': "-2.250000", 'F': "-2.250000", 'g': "-2.25", 'G': "-2.25"},
-	100.0: {'e': "1.000000e+02", 'E': "1.000000E+02", 'f': "100.000000", 'F': "100.000000", 'g': "100", 'G': "100"},
-	1e10:  {'e': "1.000000e+10", 'E': "1.000000E+10", 'f': "10000000000.000000", 'F': "10000000000.000000", 'g': "1e+10", 'G': "1E+10"},
-	0.5:   {'e': "5.000000e-01", 'E': "5.000000E-01", 'f': "0.500000", 'F': "0.500000", 'g': "0.5", 'G': "0.5"},
+// Float formats a finite x under e E f F g G following C11 §7.21.6.1.  The
+// decimal digit strings come from strconv (trusted for correctly rounded
+// binary->decimal conversion only); which digits are requested, the style
+// choice of %g, trailing-zero removal, the exponent layout, sign, '#', '0',
+// '-' and the field width are written here from the standard's text.
+//
+// exact reports that the digits printed are the exact value of x (no rounding
+// took place).  C only recommends, not requires, correct rounding, so callers
+// compare outputs only when exact is true.
+func Float(s Spec, x float64) (out string, exact bool) {
+	if math.IsNaN(x) || math.IsInf(x, 0) {
+		return "", false
+	}
+	neg := math.Signbit(x)
+	a := math.Abs(x)
+	prec := s.Prec
+	if prec < 0 {
+		prec = 6 // "If the precision is missing, it is taken as 6"
+	}
+	upper := s.Conv == 'E' || s.Conv == 'F' || s.Conv == 'G'
+	var body string
+	switch s.Conv {
+	case 'e', 'E':
+		body, exact = styleE(a, prec, s.Sharp)
+	case 'f', 'F':
+		body, exact = styleF(a, prec, s.Sharp)
+	case 'g', 'G':
+		// "Let P equal the precision if nonzero, 6 if the precision is
+		// omitted, or 1 if it is zero.  Then, if a conversion with style E
+		// would have an exponent of X: if P > X >= -4, the conversion is with
+		// style f and precision P - (X + 1); otherwise with style e and
+		// precision P - 1.  Finally, unless the # flag is used, any trailing
+		// zeros are removed from the fractional portion of the result and the
+		// decimal-point character is removed if there is no fractional
+		// portion remaining."
+		P := prec
+		if P == 0 {
+			P = 1
+		}
+		X := expOfStyleE(a, P-1)
+		if P > X && X >= -4 {
+			body, exact = styleF(a, P-(X+1), s.Sharp)
+			if !s.Sharp {
+				body = trimFraction(body)
+			}
+		} else {
+			body, exact = styleE(a, P-1, s.Sharp)
+			if !s.Sharp {
+				k := strings.IndexByte(body, 'e')
+				body = trimFraction(body[:k]) + body[k:]
+			}
+		}
+	default:
+		return "", false
+	}
+	if upper {
+		body = strings.ToUpper(body)
+	}
+	sign := ""
+	switch {
+	case neg:
+		sign = "-"
+	case s.Plus:
+		sign = "+"
+	case s.Space:
+		sign = " "
+	}
+	if s.Zero && !s.Minus && s.Width > len(sign)+len(body) {
+		return sign + strings.Repeat("0", s.Width-len(sign)-len(body)) + body, exact
+	}
+	return pad(sign+body, s.Width, s.Minus), exact
+}
+
+func isExact(digits string, a float64) bool {
+	r, ok := new(big.Rat).SetString(digits)
+	if !ok {
+		return false
+	}
+	return r.Cmp(new(big.Rat).SetFloat64(a)) == 0
+}
+
+// styleE: "[-]d.ddde±dd, one digit (nonzero if the argument is nonzero) before
+// the decimal-point character and the number of digits after it equal to the
+// precision; if the precision is zero and the # flag is not specified, no
+// decimal-point character appears.  The exponent always contains at least two
+// digits, and only as many more digits as necessary."
+func styleE(a float64, prec int, sharp bool) (string, bool) {
+	t := strconv.FormatFloat(a, 'e', prec, 64) // d[.ddd]e±dd
+	k := strings.IndexByte(t, 'e')
+	mant, exp := t[:k], t[k+1:]
+	esign, edig := exp[:1], strings.TrimLeft(exp[1:], "0")
+	for len(edig) < 2 {
+		edig = "0" + edig
+	}
+	if prec == 0 && sharp {
+		mant += "."
+	}
+	return mant + "e" + esign + edig, isExact(t, a)
+}
+
+func expOfStyleE(a float64, prec int) int {
+	t := strconv.FormatFloat(a, 'e', prec, 64)
+	k := strings.IndexByte(t, 'e')
+	x, _ := strconv.Atoi(t[k+1:])
+	return x
+}
+
+// styleF: "[-]ddd.ddd, where the number of digits after the decimal-point
+// character is equal to the precision specification ... if the precision is
+// zero and the # flag is not specified, no decimal-point character appears.
+// If a decimal-point character appears, at least one digit appears before it."
+func styleF(a float64, prec int, sharp bool) (string, bool) {
+	t := strconv.FormatFloat(a, 'f', prec, 64)
+	ex := isExact(t, a)
+	if prec == 0 && sharp {
+		t += "."
+	}
+	return t, ex
+}
+
+func trimFraction(t string) string {
+	if !strings.Contains(t, ".") {
+		return t
+	}
+	t = strings.TrimRight(t, "0")
+	return strings.TrimSuffix(t, ".")
+}
+
+// InfNaN reports whether out is one of the renderings C allows for an
+// infinity or NaN under conv: "[-]inf or [-]infinity", "[-]nan or
+// [-]nan(n-char-sequence)", upper case for the capital conversions; a '+' or
+// ' ' flag supplies the sign of a positive value.  Padding is not judged.
+func InfNaN(s Spec, x float64, out string) bool {
+	t := strings.Trim(out, " ")
+	upper := s.Conv >= 'A' && s.Conv <= 'Z'
+	neg := math.Signbit(x)
+	switch {
+	case strings.HasPrefix(t, "-"):
+		if !neg && !math.IsNaN(x) {
+			return false
+		}
+		t = t[1:]
+	case strings.HasPrefix(t, "+"):
+		if neg && !math.IsNaN(x) || !s.Plus {
+			return false
+		}
+		t = t[1:]
+	default:
+		if neg && !math.IsNaN(x) {
+			return false
+		}
+		if s.Plus {
+			return false
+		}
+	}
+	want := []string{"inf", "infinity"}
+	if math.IsNaN(x) {
+		want = []string{"nan"}
+	}
+	for _, w := range want {
+		if upper {
+			w = strings.ToUpper(w)
+		}
+		if t == w || math.IsNaN(x) && strings.HasPrefix(t, w+"(") && strings.HasSuffix(t, ")") {
+			return true
+		}
+	}
+	return false
 }
